@@ -55,6 +55,14 @@ def main(tier):
     rep.add_units(common.run_units("checks.frames", frames.units(True)))
     n = frames.plan_equivalence(rep, "C19")
     thread_standin(rep, tier)
+    from checks import history
+    n2, f2 = history.writers_history()
+    rep.add_bounded("bounded/history-equal-but-distinct-arguments/writers",
+                    f"{n2} ordered pairs of equal-but-distinct arguments (0.0/-0.0, 1/True/1.0, n/float(n)/Fraction/Decimal) over the "
+                    "fixed-width, float and varint writers", n2, f2)
+    n3, f3 = history.phantom_history()
+    rep.add_bounded("bounded/history-equal-but-distinct-arguments/primitive-types",
+                    f"{n3} ordered pairs over the 13 numeric primitive types (isinstance and constructor)", n3, f3)
     rep.extra["plans_compared"] = n
     rep.assumptions += [
         "functools.cache returns the value of a completed call for equal arguments, caches nothing when the call raises, and is "
